@@ -111,9 +111,8 @@ fn recv_step<const N: usize>(base: u64) {
     assert!(buf.largest_offset == expect_largest, "largest_offset == max(previous, end of fragment)");
     assert!(newly == buf.largest_offset - largest_before, "newly covered amount == growth of largest offset");
     assert!(buf.available() >= avail_before, "contiguous readable prefix never shrinks on recv");
-    if N > 0 {
-        kani::cover!(newly > 0 && cov_before, "recv extended past existing data");
-    }
+    // (for the empty pre-state there is no existing data: the witness is trivially satisfied)
+    kani::cover!(N == 0 || (newly > 0 && cov_before), "recv extended past existing data");
     kani::cover!(in_new && !cov_before, "probe byte newly stored");
     kani::cover!(len > 0 && newly == 0, "fully duplicate / old fragment");
     core::mem::forget(buf); // drop glue of 8 Option<Segment> cells is irrelevant to the property
